@@ -69,6 +69,9 @@ StepsFails(e) == {c \in StepsChecks : ~StepsCheck(c, e)}
 
 \* ---- C15: approximated Poisson bound -----------------------------------------
 \* op "poisson": in.rate = <<ln, ld>>, in.eps = <<en, ed>>, in.deltas increasing (first 0); out.n
+\* optional in.jitter: the model is queried through clone_with_jitter(j), i.e. a non-empty window of
+\* length d may contain what the process releases in a window of length d + j
+PoissonJitter(e) == IF "jitter" \in DOMAIN e.in THEN e.in.jitter ELSE 0
 PoissonChecks == {"terminates", "zero_at_zero", "monotone", "is_quantile"}
 PoissonCheck(c, e) ==
     LET o == e.out
@@ -80,7 +83,7 @@ PoissonCheck(c, e) ==
        [] c = "is_quantile" ->
             \A i \in 1..Len(o.n) :
                (e.in.deltas[i] > 0) =>
-                  LET iv == QuantileInterval(e.in.rate[1] * e.in.deltas[i], e.in.rate[2], e.in.eps[1], e.in.eps[2])
+                  LET iv == QuantileInterval(e.in.rate[1] * (e.in.deltas[i] + PoissonJitter(e)), e.in.rate[2], e.in.eps[1], e.in.eps[2])
                   IN iv[1] <= o.n[i] /\ o.n[i] <= iv[2]
 PoissonFails(e) == {c \in PoissonChecks : ~PoissonCheck(c, e)}
 
